@@ -38,6 +38,29 @@ def satTag (x : Int) : String :=
 def cyTag (a b : Dur) : String :=
   if a.c + b.c < -32768 ∨ a.c + b.c > 32767 then "c_ovf" else "c_fit"
 
+/-- the nine unit factors, from first principles (independent of the generated constants) -/
+def specFactor : String → Option Int
+  | "ns" => some 1
+  | "us" => some (10^3)
+  | "ms" => some (10^6)
+  | "s" => some (10^9)
+  | "min" => some (60 * 10^9)
+  | "h" => some (3600 * 10^9)
+  | "d" => some (86400 * 10^9)
+  | "wk" => some (7 * 86400 * 10^9)
+  | "cy" => some (36525 * 86400 * 10^9)
+  | _ => none
+
+def insertSorted (d : Dur) : List Dur → List Dur
+  | [] => [d]
+  | x :: xs => if Dur.cmp d x == 1 then x :: insertSorted d xs else d :: x :: xs
+
+def stepTag (d s : Int) : String :=
+  (if s == 0 then "zero_step" else if s < 0 then "neg_step" else "pos_step") ++ ":" ++
+  (if d < 0 then "neg" else if d == 0 then "zero" else "pos") ++
+  (if s != 0 ∧ d % s == 0 then ":multiple" else "") ++
+  (if d < -NPCs then ":below_-1cy" else "")
+
 def handle (op : String) (args : List String) (impl : Impl) : Option Ans :=
   match op, args with
   -- ---------------------------------------------------------------- C01
@@ -79,6 +102,186 @@ def handle (op : String) (args : List String) (impl : Impl) : Option Ans :=
     let a ← parseDur? a; let f ← unitFactor u
     pure { model := "ok " ++ showDur (Dur.sub a (Dur.unitMulI64 f 1)), spec := judgeDur impl (clampD (sval a - f)),
            branch := "subu:" ++ u ++ ":" ++ satTag (sval a - f) }
+  -- ---------------------------------------------------------------- C02
+  | "from_total", [n] => do
+    let n ← n.toInt?
+    pure { model := "ok " ++ showDur (Dur.fromTotal n), spec := judgeDur impl (clampD n),
+           branch := "from_total:" ++ satTag n }
+  | "total", [a] => do
+    let a ← parseDur? a
+    pure { model := "ok " ++ toString (Dur.totalNs a), spec := judgeInt impl (sval a), cls := tagD1 [a],
+           branch := "total:" ++ (if a.c ≤ -2 then "c<=-2" else if a.c == -1 then "c=-1" else "c>=0") }
+  | "from_parts", [c, ns] => do
+    let c ← c.toInt?; let ns ← ns.toInt?
+    pure { model := "ok " ++ showDur (Dur.fromParts c ns), spec := judgeDur impl (clampD (valP c ns)),
+           branch := "from_parts:extra=" ++ toString (ns / NPCs) ++ ":" ++ satTag (valP c ns) }
+  | "from_trunc", [n] => do
+    let n ← n.toInt?
+    pure { model := "ok " ++ showDur (Dur.fromTruncated n), spec := judgeDur impl n,
+           branch := "from_trunc:" ++ satTag n }
+  | "try_trunc", [a] => do
+    let a ← parseDur? a
+    let v := sval a
+    let small := decide (-2 * NPCs ≤ v ∧ v ≤ 2 * NPCs)
+    let fits := decide (-9223372036854775808 ≤ v ∧ v ≤ 9223372036854775807)
+    let sp := match impl with
+      | .ok [r] => (match r.toInt? with
+          | some r => verdict [("value", r == v)]
+          | none => "FAIL:decode")
+      | .other "err" => verdict [("must_succeed_within_2_centuries", !small)]
+      | .other w => "FAIL:" ++ w
+      | _ => "FAIL:decode"
+    let isOk : Bool := match impl with | .ok _ => true | _ => false
+    let sp := if !fits && sp == "ok" && isOk then "FAIL:must_fail_outside_i64" else sp
+    pure { model := showResInt (Dur.tryTruncated a), spec := sp,
+           branch := "try_trunc:" ++ (if small then "small" else if fits then "mid" else "big") }
+  | "trunc", [a] => do
+    let a ← parseDur? a
+    let v := sval a
+    let small := decide (-2 * NPCs ≤ v ∧ v ≤ 2 * NPCs)
+    let fits := decide (-9223372036854775808 ≤ v ∧ v ≤ 9223372036854775807)
+    let bound : Int := if v < 0 then -9223372036854775808 else 9223372036854775807
+    let sp := match impl with
+      | .ok [r] => (match r.toInt? with
+          | some r => if small then verdict [("value", r == v)]
+                      else if fits then verdict [("value_or_bound", r == v ∨ r == bound)]
+                      else verdict [("bound", r == bound)]
+          | none => "FAIL:decode")
+      | .other w => "FAIL:" ++ w
+      | _ => "FAIL:decode"
+    pure { model := showResInt (Dur.truncated a), spec := sp,
+           branch := "trunc:" ++ (if small then "small" else if fits then "mid" else "big") }
+  | "unit_mul_i64", [u, q] => do
+    let f ← unitFactor u; let fs ← specFactor u; let q ← q.toInt?
+    pure { model := "ok " ++ showDur (Dur.unitMulI64 f q), spec := judgeDur impl (clampD (q * fs)),
+           branch := "unit_mul_i64:" ++ u ++ ":" ++ satTag (q * fs) ++
+             (if q * fs < -9223372036854775808 ∨ q * fs > 9223372036854775807 then ":wide" else ":i64") }
+  | "compose", [sg, d, h, m, sc, ms, us, ns] => do
+    let sg ← sg.toInt?; let d ← d.toInt?; let h ← h.toInt?; let m ← m.toInt?; let sc ← sc.toInt?
+    let ms ← ms.toInt?; let us ← us.toInt?; let ns ← ns.toInt?
+    let t := d * 86400000000000 + h * 3600000000000 + m * 60000000000 + sc * 1000000000 + ms * 1000000 + us * 1000 + ns
+    let want := clampD (if sg < 0 then -t else t)
+    pure { model := showResDur (Dur.compose sg d h m sc ms us ns), spec := judgeDur impl want,
+           branch := "compose:" ++ (if sg < 0 then "neg:" else "pos:") ++ satTag (if sg < 0 then -t else t) }
+  | "from_std", [sc, ns] => do
+    let sc ← sc.toInt?; let ns ← ns.toInt?
+    pure { model := "ok " ++ showDur (Dur.fromStd sc ns), spec := judgeDur impl (clampD (sc * 1000000000 + ns)),
+           branch := "from_std:" ++ satTag (sc * 1000000000 + ns) }
+  | "into_std", [a] => do
+    let a ← parseDur? a
+    let v := sval a
+    let (ws, wn) : Int × Int := if v < 0 then (0, 0) else (v / 1000000000, v % 1000000000)
+    let (ms, mn) := Dur.intoStd a
+    let sp := match impl with
+      | .ok [s, n] => (match s.toInt?, n.toInt? with
+          | some s, some n => verdict [("secs", s == ws), ("nanos", n == wn)]
+          | _, _ => "FAIL:decode")
+      | .other w => "FAIL:" ++ w
+      | _ => "FAIL:decode"
+    pure { model := "ok " ++ toString ms ++ " " ++ toString mn, spec := sp,
+           branch := "into_std:" ++ satTag v }
+  -- ---------------------------------------------------------------- C03
+  | "eq", [a, b] | "ne", [a, b] => do
+    let a ← parseDur? a; let b ← parseDur? b
+    let va := sval a; let vb := sval b
+    let weq := decide (va = vb ∨ (va = -vb ∧ -NPCs < va ∧ va < NPCs))
+    let want := if op == "eq" then weq else !weq
+    let m := if op == "eq" then Dur.eqb a b else !(Dur.eqb a b)
+    pure { model := "ok " ++ bool01 m, spec := judgeInt impl (if want then 1 else 0),
+           branch := op ++ ":" ++ (if va == vb then "same" else if va == -vb then "opposite"
+              else if a.c == b.c then "same_c" else if (a.c - b.c).natAbs == 1 then "adjacent_c" else "far") }
+  | "lt", [a, b] | "le", [a, b] | "gt", [a, b] | "ge", [a, b] => do
+    let a ← parseDur? a; let b ← parseDur? b
+    let va := sval a; let vb := sval b
+    let c := Dur.cmp a b
+    let (m, want) := match op with
+      | "lt" => (c == -1, decide (va < vb))
+      | "le" => (c != 1, decide (va ≤ vb))
+      | "gt" => (c == 1, decide (va > vb))
+      | _ => (c != -1, decide (va ≥ vb))
+    pure { model := "ok " ++ bool01 m, spec := judgeInt impl (if want then 1 else 0),
+           branch := op ++ ":" ++ (if va == vb then "same" else if a.c == b.c then "same_c" else "diff_c") }
+  | "cmp", [a, b] => do
+    let a ← parseDur? a; let b ← parseDur? b
+    let va := sval a; let vb := sval b
+    let want : Int := if va < vb then -1 else if va > vb then 1 else 0
+    pure { model := "ok " ++ toString (Dur.cmp a b), spec := judgeInt impl want,
+           branch := "cmp:" ++ (if va == vb then "same" else if a.c == b.c then "same_c" else "diff_c") }
+  | "min", [a, b] | "max", [a, b] => do
+    let a ← parseDur? a; let b ← parseDur? b
+    let va := sval a; let vb := sval b
+    let want := if op == "min" then (if va < vb then va else vb) else (if va > vb then va else vb)
+    let m := if op == "min" then Dur.min a b else Dur.max a b
+    pure { model := "ok " ++ showDur m, spec := judgeDur impl want,
+           branch := op ++ ":" ++ (if va == vb then "same" else if va < vb then "lt" else "gt") }
+  | "equ", [a, u] => do
+    let a ← parseDur? a; let f ← unitFactor u; let fs ← specFactor u
+    let va := sval a
+    let want := decide (va = fs ∨ (va = -fs ∧ fs < NPCs))
+    pure { model := "ok " ++ bool01 (Dur.eqb a (Dur.unitMulI64 f 1)), spec := judgeInt impl (if want then 1 else 0),
+           branch := "equ:" ++ u ++ ":" ++ (if va == fs then "same" else if va == -fs then "opposite" else "other") }
+  | "cmpu", [a, u] => do
+    let a ← parseDur? a; let f ← unitFactor u; let fs ← specFactor u
+    let va := sval a
+    let want : Int := if va < fs then -1 else if va > fs then 1 else 0
+    pure { model := "ok " ++ toString (Dur.cmp a (Dur.unitMulI64 f 1)), spec := judgeInt impl want,
+           branch := "cmpu:" ++ u ++ ":" ++ toString want }
+  | "sort3", [a, b, c] => do
+    let a ← parseDur? a; let b ← parseDur? b; let c ← parseDur? c
+    let srt := insertSorted a (insertSorted b [c])
+    let sp := match impl with
+      | .ok [x, y, z] => (match parseDur? x, parseDur? y, parseDur? z with
+          | some x, some y, some z =>
+            let vs := [sval a, sval b, sval c]
+            let rs := [sval x, sval y, sval z]
+            verdict [("ordered", decide (sval x ≤ sval y ∧ sval y ≤ sval z)),
+                     ("permutation", vs.all (fun v => vs.count v == rs.count v)),
+                     ("canonical", scanon x && scanon y && scanon z)]
+          | _, _, _ => "FAIL:decode")
+      | .other w => "FAIL:" ++ w
+      | _ => "FAIL:decode"
+    pure { model := "ok " ++ " ".intercalate (srt.map showDur), spec := sp, branch := "sort3" }
+  | "addgt", [a, b] => do
+    let a ← parseDur? a; let b ← parseDur? b
+    let va := sval a; let vb := sval b
+    let sat := decide (va + vb < DMIN ∨ va + vb > DMAX)
+    let sp := if sat then (match impl with | .ok [_] => "ok" | .other w => "FAIL:" ++ w | _ => "FAIL:decode")
+              else judgeInt impl (if vb > 0 then 1 else 0)
+    pure { model := "ok " ++ bool01 (Dur.gt (Dur.add a b) a), spec := sp,
+           branch := "addgt:" ++ (if sat then "saturating" else if vb > 0 then "pos" else if vb == 0 then "zero_b" else "neg") }
+  -- ---------------------------------------------------------------- C14
+  | "floor", [d, st] => do
+    let d ← parseDur? d; let st ← parseDur? st
+    let want := sfloor (sval d) (sval st)
+    pure { model := "ok " ++ showDur (Dur.floor d st), spec := judgeDur impl want, cls := tagD1 [d, st],
+           branch := "floor:" ++ stepTag (sval d) (sval st) }
+  | "ceil", [d, st] => do
+    let d ← parseDur? d; let st ← parseDur? st
+    let want := sceil (sval d) (sval st)
+    pure { model := showResDur (Dur.ceil d st), spec := judgeDur impl want, cls := tagD1 [d, st, Dur.floor d st],
+           branch := "ceil:" ++ stepTag (sval d) (sval st) }
+  | "round", [d, st] => do
+    let d ← parseDur? d; let st ← parseDur? st
+    let want := sround (sval d) (sval st)
+    pure { model := showResDur (Dur.round d st), spec := judgeDur impl want, cls := tagD1 [d, st, Dur.floor d st],
+           branch := "round:" ++ stepTag (sval d) (sval st) }
+  | "approx", [d] => do
+    let d ← parseDur? d
+    let v := sval d
+    let m := if v < 0 then -v else v
+    let unit : Int := if m ≥ 86400000000000 then 86400000000000 else if m ≥ 3600000000000 then 3600000000000
+      else if m ≥ 60000000000 then 60000000000 else if m ≥ 1000000000 then 1000000000
+      else if m ≥ 1000000 then 1000000 else if m ≥ 1000 then 1000 else 1
+    let mres := match Dur.decompose d with
+      | .ok (_, dd, h, mi, sc, ms, us, _) =>
+        let f : Int := if dd > 0 then Gen.NANOSECONDS_PER_DAY else if h > 0 then Gen.NANOSECONDS_PER_HOUR
+          else if mi > 0 then Gen.NANOSECONDS_PER_MINUTE else if sc > 0 then Gen.NANOSECONDS_PER_SECOND
+          else if ms > 0 then Gen.NANOSECONDS_PER_MILLISECOND else if us > 0 then Gen.NANOSECONDS_PER_MICROSECOND else 1
+        Dur.round d (Dur.unitMulI64 f 1)
+      | .err => .err
+      | .panic => .panic
+    pure { model := showResDur mres, spec := judgeDur impl (sround v unit), cls := tagD1 [d, Dur.floor d (Dur.unitMulI64 unit 1)],
+           branch := "approx:" ++ toString unit ++ (if v < 0 then ":neg" else ":pos") }
   | _, _ => none
 
 end Hifi.Drive.Duration
